@@ -83,7 +83,27 @@ func ZZSegment(n, l1, l2, l3 int) {
 		}
 		_, err = ms.Read(base + int64(t) + 1)
 		vAssert("dropped-record-unreadable", err != nil)
-		vAssert("append-continues-after-truncation", ms.Append(base+int64(t)+1, []byte{7}) == nil || !ms.HasSpace(1))
+		room := ms.HasSpace(1)
+		aerr := ms.Append(base+int64(t)+1, []byte{7})
+		vAssert("append-continues-after-truncation", (aerr == nil) == room)
+		if aerr == nil {
+			// the record appended after the truncation must not disturb the kept prefix
+			for i := 0; i <= t; i++ {
+				got, err := ms.Read(base + int64(i))
+				vAssert("kept-record-readable-after-append", err == nil && len(got) == len(stored[i]))
+				if err == nil && len(got) == len(stored[i]) {
+					for j := range got {
+						vAssert("kept-record-identical-after-append", got[j] == stored[i][j])
+					}
+				}
+			}
+			got, err := ms.Read(base + int64(t) + 1)
+			vAssert("new-record-readable", err == nil && len(got) == 1 && got[0] == 7)
+			vAssert("last-offset-after-append", ms.LastOffset() == base+int64(t)+1)
+			c2 := base + int64(t) + 1
+			_, _, off2, last2, rerr2 := ms.c.codec.RecoverIndex(ms.txnMappedFile, 0, base, &c2)
+			vAssert("recovery-after-truncate-append", rerr2 == nil && last2 == base+int64(t)+1 && off2 == ms.currentFileOffset)
+		}
 	}
 	vReach("end")
 }
